@@ -16,6 +16,8 @@ func checkC06(c *Ctx) {
 	r.Rule("R06.1", "SGR typestate: treating every write of a constant on the print path as an event (\"\\x1b[0m\" resets, any other \"\\x1b[\" switches a colour on, '\\n' in a constant or as a Join separator is a line break), a may-analysis with function summaries over the colored-mode call tree (dependency colour helpers included, testing/debug dump excluded) shows that no line break is written while a colour may be on and that the record ends in the clean state")
 	r.Rule("R06.2", "values contribute no raw bytes: in colored mode no site copies an attribute value, error text or fallback formatting into the record verbatim")
 	r.Rule("R06.3", "layout: timestamp, logger name, severity tag, first line, attributes, caller, remaining lines, in this order; the tag is ShortTag(levelOutputWidth) between brackets; the first line is right-padded to minimalMessageWidth; remaining lines are indented by padFunc(.., \" \", 4, ..) and follow a line break; attributes are sorted (R07.3)")
+	r.Rule("R05.5", "(shared with C05) group members under dotted keys in colored mode too: member keys are DotPrefix(key, enclosing prefix) and the prefix pushed for a value is the dotted key")
+	r.Rule("R05.1", "(shared with C05) groupness is decided per element")
 	r.Rule("R19.1", "(shared with C19) the record is the bytes the encoder appended: the write side of the formatting buffer is isomorphic to bytes.Buffer")
 	r.Rule("R05.3", "(shared with C05) the quoting routine behind every quoted attribute value lets no control byte through: appendQuotedWith appends only the quote, \\xHH of an invalid byte and the output of appendEscapedRune, which copies a rune verbatim only under a printability test")
 	r.Rule("R09.2", "(shared with C09) the layout depends on the configuration in force, not on earlier records: nothing on the print path stores to package-level state (a tag or padding computed for one width is not kept for another)")
@@ -46,6 +48,10 @@ func checkC06(c *Ctx) {
 		c06SGR(c, p, m, NewModeReach(p, m, mode, sessionEntries(p), false), "[debug]")
 		c06Layout(c, p, m, mr)
 		c06EveryLine(c, p, m, mr)
+		c05Keys(c, p, m, mr)
+		c11Transitions(c, p, m)
+		c17Register(c, p, m)
+		tagStoresFromRegistration(c, p)
 		padUnbounded(c, p)
 		noScannerOnPrintPath(c, p, m, "R06.3")
 		tagWidthSetter(c, p)
